@@ -1710,11 +1710,31 @@ func (v *VMValue) AsDictKey() (string, error) {
 }
 
 func ValueEqual(a *VMValue, b *VMValue, autoConvert bool) bool {
+	return valueEqualSeen(a, b, autoConvert, nil)
+}
+
+// valueEqualSeen seen 记录已经开始比较的容器对。再次遇到同一对时直接返回 true: 这一对要么正在比较中
+// (循环引用，如 a[0]=a，此前会无限递归耗尽栈)，要么已经比较完且相等(若不相等整个比较早已返回 false)。
+// 这也让共享子结构(如反复执行 x=[x,x])的比较保持线性，而不是指数级
+func valueEqualSeen(a *VMValue, b *VMValue, autoConvert bool, seen map[[2]any]bool) bool {
 	if a == b {
 		return true
 	}
 	if a == nil || b == nil {
 		return false
+	}
+	if a.TypeId == b.TypeId && (a.TypeId == VMTypeArray || a.TypeId == VMTypeDict) {
+		if a.Value == b.Value {
+			return true
+		}
+		key := [2]any{a.Value, b.Value}
+		if seen[key] {
+			return true
+		}
+		if seen == nil {
+			seen = map[[2]any]bool{}
+		}
+		seen[key] = true
 	}
 
 	if a.TypeId == b.TypeId {
@@ -1726,7 +1746,7 @@ func ValueEqual(a *VMValue, b *VMValue, autoConvert bool) bool {
 				return false
 			}
 			for index, i := range arr1.List {
-				if !ValueEqual(i, arr2.List[index], autoConvert) {
+				if !valueEqualSeen(i, arr2.List[index], autoConvert, seen) {
 					return false
 				}
 			}
@@ -1739,7 +1759,7 @@ func ValueEqual(a *VMValue, b *VMValue, autoConvert bool) bool {
 			}
 			isSame := true
 			d1.Dict.Range(func(key string, value *VMValue) bool {
-				isEqual := ValueEqual(value, d2.Dict.MustLoad(key), autoConvert)
+				isEqual := valueEqualSeen(value, d2.Dict.MustLoad(key), autoConvert, seen)
 				if !isEqual {
 					isSame = false
 					return false
